@@ -1020,6 +1020,35 @@ def run(chk):
         chk.violation(("tie:" + key) if kind in ("tie", "harness") else key, f"{src}  — {text}", replay,
                       no_input=kind in ("tie", "harness"))
     # ---- operations outside the random pipelines: fixed probes with the value the list semantics gives
+    # ---- with_count / distinct with USER hash and equality functions: colliding hashes, recurring elements
+    hreqs, hmeta = [], []
+    HASHES = [("(x:int)->{x % 3}", lambda x: x % 3), ("(x:int)->{0}", lambda x: 0), ("(x:int)->{x % 2}", lambda x: x % 2), ("(x:int)->{x}", lambda x: x)]
+    STREAMS = [[1, 4, 1], [1, 4, 4, 1], [1, 4, 7, 1, 4], [0, 3, 6, 3, 0, 6], [2, 2, 5, 2, 5, 8, 8], [1, 2, 3, 1, 2, 3], [5], []]
+    for _ in range(6 if quick else 60):
+        STREAMS.append([rng.choice([0, 1, 2, 3, 4, 6, 7, 9]) for _ in range(rng.choice([3, 5, 8]))])
+    for xs in STREAMS:
+        for htxt, _h in HASHES:
+            src_g = ("[" + ", ".join(map(str, xs)) + "]" if xs else "[].map((x:int)->{x})") + ".to_generator()"
+            cnt, wc = {}, []
+            for x in xs:
+                cnt[x] = cnt.get(x, 0) + 1
+                wc.append((x, cnt[x]))
+            first = [x for x, c in wc if c == 1]
+            for opn, call, want in (("with_count", f"with_count({htxt}, eq{{int, int}})", dump(wc)),
+                                    ("distinct", f"distinct({htxt}, eq{{int, int}})", dump(first))):
+                hreqs.append({"op": "run", "src": f"let g = {src_g}.{call};\nlet a = g.to_array();\nlet b = g.to_array();\n",
+                              "get": ["a", "b"], "limits": {"search": SEARCH, "ud_calls": UD_CALLS}})
+                hmeta.append((opn, want))
+    for (opn, want), r, req in zip(hmeta, run_harness(hreqs, per_req_timeout=WATCHDOG), hreqs):
+        chk.evaluations += 1
+        chk.count("userhash:" + opn)
+        f = _fail(r)
+        a = canon_impl(f) if f is not None else canon_impl(r["vals"]["a"])
+        b = a if f is not None else canon_impl(r["vals"]["b"])
+        if a != want or b != want:
+            chk.violation(f"userhash:{opn}:" + ("twice" if a != b else "wrong"),
+                          f"{req['src'].strip()}  — gives {a[:160]}" + (f" and then {b[:120]}" if a != b else "") + f"; over plain lists {want[:160]}",
+                          {**req, "expected": want, "got": a, "got_second": b})
     probes = fixed_probes()
     dumps = eval_exprs([e for e, _, _ in probes], limits={"search": SEARCH, "ud_calls": UD_CALLS}, per_req_timeout=20.0)
     for (e, want, key), d in zip(probes, dumps):
